@@ -157,6 +157,11 @@ def run(ctx):
                 which = 'go-recorder' if fl.stdout != b.stdout else 'lean-model'
                 d = first_diff(fl.stdout, other)
                 flat_bad = {'circuit': circ, 'against': which, 'first_difference': {'line': d['line'], 'committed_model': d['committed'], which: d['fresh']}}
+    # T-trace-kernel: the committed model, flattened with the hash gadgets kept as call lines, as a Lean
+    # term; the kernel decides that it is the trace of the proved Lean program, and the end-to-end
+    # meaning theorems (Smtb/Properties/GoTrace.lean) are instantiated at that term: the model under
+    # formal verification denotes the specification of C01/C02/C03
+    kmism = common.kernel_trace_tie(ctx, 'Extract') if trace_ok else []
     # identifier facts, decided by Lean over regenerated lists
     defined, referenced = regen_extract_facts()
     facts_err = None
@@ -195,6 +200,9 @@ def run(ctx):
         raise facts_err
     if not trace_ok:
         raise flat_bad_tie
+    if kmism:
+        replay = common.write_replay(ctx, 'tie', {'kind': 'tie', 'tie': 'T-trace-kernel (Smtb.Gen.GoTraceExtract)', 'mismatches': kmism[:3]})
+        raise Violation('T-trace-kernel broken: ' + json.dumps(kmism[0])[:600], replay, found_input=False)
 
 
 REPLAY_KINDS = ('extract',)
